@@ -190,6 +190,8 @@ def _candidates(u: dict):
         if a['code'] in (2, 17) and a.get('segs'):
             segs = a['segs']
             for j in range(len(segs)):
+                if len(segs) == 1:
+                    break  # an empty path is another class of input (zero-length AS4_PATH): never shrink into it
                 c = clone(); s2 = [list(x) for x in segs]; del s2[j]
                 c['a'][i]['segs'] = s2; c['a'][i]['f'] = [wiregen.show_segs(s2)]; yield c
             for j in range(len(segs)):
@@ -267,7 +269,7 @@ def canon_of(S: wirerig.Session, u: dict, what: str) -> dict:
         if a['code'] in (14, 15) and 'fam' in a:
             where.append(('reach-' if a['code'] == 14 else 'unreach-') + '%d.%d' % tuple(a['fam']) + ('' if a.get('nlris') else '-empty'))
     canon: dict = {'what': re.sub(r'attr:', '', what), 'attrs': codes, 'routes': sorted(where)}
-    if set(codes) & {2, 7, 17, 18}:
+    if set(codes) & {17, 18}:
         canon['asn4'] = S.asn4
     if any(n.get('pid') is not None for n in u['w'] + u['n'] + [n for a in u['a'] for n in a.get('nlris', [])]):
         canon['addpath'] = True
@@ -345,7 +347,7 @@ def norm_sem(u: dict) -> dict:
 def run(ctx: Ctx) -> None:
     rng = ctx.rng
     quick = ctx.tier == 'quick'
-    per_shape = 240 if quick else 4000
+    per_shape = 1000 if quick else 12000
     shapes = SHAPES_QUICK if quick else SHAPES_QUICK + SHAPES_MORE
     ctx.rule = (
         'UPDATE bodies made by the Lean reference encoder from structurally generated UpdateSem values (every recognised attribute kind, any order, extended-length flag on short attributes, partial bit, unknown attributes, '
@@ -359,8 +361,6 @@ def run(ctx: Ctx) -> None:
     unknown_codes = [c for c in list(range(11, 14)) + list(range(19, 256)) if c not in wiregen.exabgp_only_codes() and c not in wiregen.KNOWN]
     OPAQUE_CODES.update(wiregen.exabgp_only_codes())
     sessions = [wirerig.Session(addpath=s['addpath'], asn4=s['asn4'], extnh=s['extnh']) for s in shapes]
-    for S in sessions:
-        ctx.count(f'shape:asn4={int(S.asn4)},addpath={len(S.addpath)},extnh={len(S.extnh)}', 0)
 
     # 1. build the case list: (session index, origin, sem | None, body | None)
     cases: list[dict] = []
@@ -425,6 +425,7 @@ def run(ctx: Ctx) -> None:
         what, details, res = outcome(S, body, c['model'])
         ctx.evaluations += 1
         ctx.count('origin:' + c['origin'])
+        ctx.count(f'shape:asn4={int(S.asn4)},addpath={len(S.addpath)},extnh={len(S.extnh)}')
         if what in ('model-refuses', 'family-not-negotiated'):
             ctx.count('skipped:' + what)
             # not a well-formed message under this shape; what ExaBGP does with it belongs to C03 / C08
